@@ -121,7 +121,118 @@ fn scenario(param: u64) {
     drop(keep);
 }
 
-fn write_evidence(out: &str, tier: &str, seed: u64, wall: f64, violations: u64, schedulers: &[(&str, u64)], sample: serde_json::Value) {
+/// C07, multi-thread part: caller threads (one handle clone each) call subscribe()
+/// concurrently, so that the order in which subscription identifiers are allocated and the
+/// order in which the SUBSCRIBE requests reach the context may differ. Afterwards the context
+/// serves them, the broker acknowledges each and sends one message per subscription identifier
+/// (before and after the SUBACKs), and every subscribe() call must get exactly its own message.
+fn scenario_c07(param: u64) {
+    use futures::StreamExt;
+    EXECUTIONS.fetch_add(1, Ordering::Relaxed);
+    let threads = 2 + (param % 2) as usize; // 2..3
+    let per_thread = 1 + ((param / 2) % 3) as usize; // 1..3
+    let early = (param / 6) % 2 == 0; // messages before the SUBACKs
+    let config = posim::scenario::Config { handles: threads, preset_ids: Some((1 + (param % 50) as u16, 1 + (param % 90) as u32)), ..Default::default() };
+    let mut w = World::new(config);
+    let connect = ConnectSpec { client_id: Some("t".into()), ..Default::default() };
+    for s in [
+        Step::Start { connect, auths: vec![] },
+        Step::Settle { seed: 0 },
+        Step::Broker { pkt: BrokerPkt::Connack { session_present: false, reason: 0, props: Props::new() }, chunks: Chunks::Whole, hold: false },
+        Step::Settle { seed: 1 },
+    ] {
+        w.exec(&s);
+    }
+    let got: Arc<std::sync::Mutex<Vec<(String, String)>>> = Arc::new(std::sync::Mutex::new(Vec::new()));
+    poster::verif::set_sched_point(Some(Rc::new(|| shuttle::thread::sleep(std::time::Duration::ZERO))));
+    let mut joins = Vec::new();
+    for t in 0..threads {
+        let handle = w.handles[t].clone().expect("handle clone");
+        let got = got.clone();
+        joins.push(shuttle::thread::spawn(move || {
+            let waker = Waker::from(Arc::new(Noop));
+            let mut cx = Context::from_waker(&waker);
+            let mut futs: Vec<OpFuture> = Vec::new();
+            for j in 0..per_thread {
+                let mut h = handle.clone();
+                let got = got.clone();
+                let name = format!("f/{}", t * 100 + j);
+                let mut fut: OpFuture = Box::pin(async move {
+                    if let Ok(rsp) = h.subscribe(SubscribeOpts::new().subscription(&name, SubscriptionOpts::new())).await {
+                        let mut stream = rsp.stream();
+                        while let Some(msg) = stream.next().await {
+                            got.lock().unwrap().push((name.clone(), msg.topic_name().to_string()));
+                        }
+                    }
+                });
+                let _ = fut.as_mut().poll(&mut cx);
+                futs.push(fut);
+            }
+            futs
+        }));
+    }
+    let mut keep: Vec<OpFuture> = Vec::new();
+    for j in joins {
+        keep.extend(j.join().expect("caller thread"));
+    }
+    poster::verif::set_sched_point(None);
+    w.exec(&Step::Settle { seed: 2 });
+    // what reached the wire: (packet identifier, subscription identifier, filter)
+    let subs: Vec<(u16, u32, String)> = {
+        let a = Analysis::of(&w);
+        a.wire
+            .iter()
+            .filter_map(|p| match &p.pkt {
+                posim::refcodec::Packet::Subscribe(s) => Some((s.pid, s.props.varints(posim::refcodec::pid::SUBSCRIPTION_ID).first().copied().unwrap_or(0), s.filters.first().map(|f| f.0.clone()).unwrap_or_default())),
+                _ => None,
+            })
+            .collect()
+    };
+    assert_eq!(subs.len(), threads * per_thread, "C07/lost-request/threads: {} of {} SUBSCRIBE packets on the wire", subs.len(), threads * per_thread);
+    let publish = |w: &mut World, sid: u32, filter: &str, tag: &str| {
+        w.exec(&Step::Broker {
+            pkt: BrokerPkt::Publish { subs: vec![SubRef::Raw(sid)], qos: 0, id: IdSpec::Fresh, dup: false, retain: false, topic: format!("{tag}/{filter}"), payload: b"x".to_vec(), props: Props::new() },
+            chunks: Chunks::Whole,
+            hold: false,
+        });
+    };
+    if early {
+        for (_, sid, f) in &subs {
+            publish(&mut w, *sid, f, "early");
+        }
+    }
+    for (pid, _, _) in &subs {
+        w.exec(&Step::Broker { pkt: BrokerPkt::AckRaw { kind: AckKind::Suback, pid: *pid, reasons: vec![0], props: Props::new(), form: posim::refcodec::Form::Full }, chunks: Chunks::Whole, hold: false });
+    }
+    for (_, sid, f) in &subs {
+        publish(&mut w, *sid, f, "late");
+    }
+    w.exec(&Step::Settle { seed: 3 });
+    // the callers now see their SUBACK, open their streams and drain them
+    let waker = Waker::from(Arc::new(Noop));
+    let mut cx = Context::from_waker(&waker);
+    for _ in 0..4 {
+        for f in keep.iter_mut() {
+            let _ = f.as_mut().poll(&mut cx);
+        }
+        w.exec(&Step::Settle { seed: 4 });
+    }
+    w.finish();
+    let got = got.lock().unwrap().clone();
+    for (_, _, f) in &subs {
+        let mine: Vec<&String> = got.iter().filter(|(name, _)| name == f).map(|(_, t)| t).collect();
+        let mut want: Vec<String> = Vec::new();
+        if early {
+            want.push(format!("early/{f}"));
+        }
+        want.push(format!("late/{f}"));
+        assert!(mine.iter().map(|s| s.as_str()).eq(want.iter().map(|s| s.as_str())), "C07/missing-item/threads: subscribe({f}) received {:?}, expected {:?}", mine, want);
+    }
+    MAX_REQUESTS.fetch_max(subs.len() as u64, Ordering::Relaxed);
+    drop(keep);
+}
+
+fn write_evidence(prop: &str, out: &str, tier: &str, seed: u64, wall: f64, violations: u64, schedulers: &[(&str, u64)], sample: serde_json::Value) {
     // merged into the single-task evidence file by the check script (see tools/merge_c11.py)
     let ev = serde_json::json!({
         "tier": tier, "seed": seed, "wall_s": wall, "violations": violations,
@@ -131,29 +242,34 @@ fn write_evidence(out: &str, tier: &str, seed: u64, wall: f64, violations: u64, 
         "schedulers": schedulers.iter().map(|(n, i)| serde_json::json!({"name": n, "iterations": i})).collect::<Vec<_>>(),
         "scheduling_points": "every load/store/read-modify-write of ContextHandle.packet_id and .sub_id (poster::verif atomic shim)",
         "sample": sample,
-        "components": {"real": ["ContextHandle::publish/subscribe/unsubscribe on 2-4 caller threads", "futures-channel mpsc", "Context::run serving afterwards"], "stub": ["thread scheduler (shuttle 0.9.3, random and PCT)", "transport/broker (posim)"]},
+        "components": {"real": ["ContextHandle::publish/subscribe/unsubscribe on 2-4 caller threads", "futures-channel mpsc", "Context::run serving afterwards", "SubscribeStream (C07)"], "stub": ["thread scheduler (shuttle 0.9.3, random and PCT)", "transport/broker (posim)"]},
     });
     std::fs::create_dir_all(format!("{out}/evidence")).ok();
-    std::fs::write(format!("{out}/evidence/C11.threads.json"), serde_json::to_string_pretty(&ev).unwrap()).expect("write evidence");
+    std::fs::write(format!("{out}/evidence/{prop}.threads.json"), serde_json::to_string_pretty(&ev).unwrap()).expect("write evidence");
 }
 
 fn main() {
     let args: Vec<String> = std::env::args().skip(1).collect();
     let flag = |name: &str| -> Option<String> { args.iter().position(|a| a == name).and_then(|i| args.get(i + 1).cloned()) };
     let out = flag("--out").unwrap_or_else(|| "/verif".into());
+    let prop: String = flag("--prop").unwrap_or_else(|| "C11".into());
     let seed: u64 = flag("--seed").and_then(|s| s.parse().ok()).or_else(|| std::env::var("VERIF_SEED").ok().and_then(|s| s.parse().ok())).unwrap_or(1);
     match args.first().map(|s| s.as_str()) {
         Some("replay") => {
             let path = args.get(1).expect("schedule file");
             // file name carries the scenario parameter: <dir>/C11-threads-<param>-...
             let param: u64 = path.rsplit('/').next().and_then(|f| f.split('-').nth(2)).and_then(|s| s.parse().ok()).expect("parameter in file name");
-            let r = catch_unwind(AssertUnwindSafe(|| shuttle::replay_from_file(move || scenario(param), path)));
+            // the file name also says which property's scenario it belongs to
+            let prop: String = path.rsplit('/').next().and_then(|f| f.split('-').next()).unwrap_or("C11").to_string();
+            let is_c07 = prop == "C07";
+            let r = catch_unwind(AssertUnwindSafe(|| shuttle::replay_from_file(move || if is_c07 { scenario_c07(param) } else { scenario(param) }, path)));
             match r {
                 Err(e) => {
                     let msg = e.downcast_ref::<String>().cloned().or_else(|| e.downcast_ref::<&str>().map(|s| s.to_string())).unwrap_or_default();
-                    if msg.contains("C11/") {
-                        println!("VIOLATION property=C11 replay={path}");
-                        println!("reproduced: {}", msg.lines().find(|l| l.contains("C11/")).unwrap_or(""));
+                    let tag = format!("{prop}/");
+                    if msg.contains(&tag) {
+                        println!("VIOLATION property={prop} replay={path}");
+                        println!("reproduced: {}", msg.lines().find(|l| l.contains(&tag)).unwrap_or(""));
                         std::process::exit(1);
                     }
                     // the recorded schedule does not fit this build (different scheduling points)
@@ -168,7 +284,13 @@ fn main() {
         }
         Some("check") => {
             let tier = flag("--tier").unwrap_or_else(|| "quick".into());
-            let (params, iters): (u64, usize) = if tier == "thorough" { (72, 30_000) } else { (48, 2_000) };
+            let is_c07 = prop == "C07";
+            let (params, iters): (u64, usize) = match (is_c07, tier == "thorough") {
+                (false, true) => (72, 30_000),
+                (false, false) => (48, 2_000),
+                (true, true) => (24, 20_000),
+                (true, false) => (24, 1_500),
+            };
             let t0 = Instant::now();
             let replay_dir = format!("{out}/replays");
             std::fs::create_dir_all(&replay_dir).ok();
@@ -188,16 +310,16 @@ fn main() {
                     let s = seed.wrapping_mul(1_000_003).wrapping_add(k);
                     let r = catch_unwind(AssertUnwindSafe(|| {
                         if *sched == "random" {
-                            Runner::new(RandomScheduler::new_from_seed(s, iters), cfg).run(move || scenario(param));
+                            Runner::new(RandomScheduler::new_from_seed(s, iters), cfg).run(move || if is_c07 { scenario_c07(param) } else { scenario(param) });
                         } else {
-                            Runner::new(PctScheduler::new_from_seed(s, 3, iters / 2), cfg).run(move || scenario(param));
+                            Runner::new(PctScheduler::new_from_seed(s, 3, iters / 2), cfg).run(move || if is_c07 { scenario_c07(param) } else { scenario(param) });
                         }
                     }));
                     totals[si].1 += if *sched == "random" { iters as u64 } else { (iters / 2) as u64 };
                     if let Err(e) = r {
                         violations += 1;
                         let msg = e.downcast_ref::<String>().cloned().or_else(|| e.downcast_ref::<&str>().map(|s| s.to_string())).unwrap_or_default();
-                        let target = format!("{replay_dir}/C11-threads-{param}-{sched}-{s}.schedule");
+                        let target = format!("{replay_dir}/{prop}-threads-{param}-{sched}-{s}.schedule");
                         let produced: Vec<_> = std::fs::read_dir(&tmp_dir).map(|d| d.filter_map(|e| e.ok()).map(|e| e.path()).collect()).unwrap_or_default();
                         match produced.first() {
                             Some(f) => {
@@ -208,8 +330,9 @@ fn main() {
                                 std::process::exit(2);
                             }
                         }
-                    let first = msg.lines().find(|l| l.contains("C11/")).or_else(|| msg.lines().next()).unwrap_or("").to_string();
-                        println!("VIOLATION property=C11 replay={target}");
+                    let tag = format!("{prop}/");
+                        let first = msg.lines().find(|l| l.contains(&tag)).or_else(|| msg.lines().next()).unwrap_or("").to_string();
+                        println!("VIOLATION property={prop} replay={target}");
                         println!("  class/message: {first}");
                         std::fs::remove_dir_all(&tmp_dir).ok();
                         // shuttle persists only the first failing schedule of a process: stop here
@@ -222,12 +345,12 @@ fn main() {
             }
             std::fs::remove_dir_all(format!("{replay_dir}/.shuttle-{}", std::process::id())).ok();
             let wall = t0.elapsed().as_secs_f64();
-            write_evidence(&out, &tier, seed, wall, violations, &totals, serde_json::json!({"param": 17, "threads": 2 + 17 % 3, "ops_per_thread": 1 + (17 / 3) % 4, "preset_packet_id": 65_535 - ((17 / 12) % 6)}));
-            println!("done C11 (threads): {} controlled executions ({} crossed the wrap), {:.1}s, {} violation(s)", EXECUTIONS.load(Ordering::Relaxed), WRAPS.load(Ordering::Relaxed), wall, violations);
+            write_evidence(&prop, &out, &tier, seed, wall, violations, &totals, serde_json::json!({"param": 17, "threads": 2 + 17 % 3, "ops_per_thread": 1 + (17 / 3) % 4, "preset_packet_id": 65_535 - ((17 / 12) % 6)}));
+            println!("done {prop} (threads): {} controlled executions ({} crossed the wrap), {:.1}s, {} violation(s)", EXECUTIONS.load(Ordering::Relaxed), WRAPS.load(Ordering::Relaxed), wall, violations);
             std::process::exit(if violations > 0 { 1 } else { 0 });
         }
         _ => {
-            eprintln!("usage: posim-threads check [--tier quick|thorough] [--seed N] [--out DIR] | replay <schedule file>");
+            eprintln!("usage: posim-threads check [--prop C11|C07] [--tier quick|thorough] [--seed N] [--out DIR] | replay <schedule file>");
             std::process::exit(2);
         }
     }
